@@ -10,6 +10,10 @@ package deviceshare
 // informer, a binding goroutine) with r.Choose. After every operation the reported
 // getNodeDeviceSummary() is compared with a model recomputed from the statement of C07.
 // See /verif/DESIGN.md §4 C07.
+//
+// The engine also serves C19 (r.Prop == "C19"): the same histories with a restart fork after
+// every bind - see the section "C19" at the end of this file. C07's behaviour is unchanged
+// for its own id.
 
 import (
 	"context"
@@ -20,6 +24,7 @@ import (
 	"testing"
 
 	corev1 "k8s.io/api/core/v1"
+	"k8s.io/apimachinery/pkg/api/equality"
 	"k8s.io/apimachinery/pkg/api/resource"
 	metav1 "k8s.io/apimachinery/pkg/apis/meta/v1"
 	"k8s.io/apimachinery/pkg/types"
@@ -80,6 +85,9 @@ type dvCfg struct {
 	GPUMem   []int64 `json:"gpu_mem"`  // per node: GPU memory size in bytes (a property of the hardware, fixed for the run)
 	OddBytes bool    `json:"odd_bytes"` // byte-denominated GPU memory requests that are not a whole percentage of the card
 	Split    bool    `json:"split"`     // informer events may be handled between the Filter phase and Reserve of one scheduling cycle
+	// C19 only: how the start-up deliveries of a restarted scheduler are merged ("devices-first": every Device object is
+	// handled before the first pod; "any": the Device and the pod informer run independently)
+	Order string `json:"order,omitempty"`
 }
 
 // dvDev is one device of a node's inventory (one entry of Device.spec.devices).
@@ -828,6 +836,10 @@ func (dvEngine) Generate(p *sim.Plan, g *sim.Rng) {
 			}
 		}
 	}
+	if p.Prop == "C19" {
+		// drawn last, so that the workload of a seed does not depend on it
+		cfg.Order = g.Pick("devices-first", "any", "any")
+	}
 	p.SetCfg(cfg)
 	p.SetOps(ops)
 }
@@ -939,6 +951,52 @@ type dvSim struct {
 	reserved map[string]*dvHeld // allocations committed by Reserve and not rolled back
 	overOK   map[dvOverKey]bool // (node, type, minor, resource) where used > total is explained by the history
 	steps    int
+
+	// C19 (restart) mode
+	c19      bool
+	liveBad  bool            // the live ledger failed one of C07's oracles in this run: not used as a reference any more
+	c07class map[string]bool // history classes of the findings recorded for C07 that this run's history meets
+	forks    int
+	probeSeq int
+}
+
+// fail reports a violation of one of C07's oracles. Under C19 these oracles are not claimed (they are C07's and
+// `check C07` reports them): the run goes on, but the live ledger is no longer trusted as the reference of the
+// restart comparison (the rebuilt state is still compared with what the API objects say).
+func (s *dvSim) fail(oracle, sigDetail, format string, args ...any) {
+	if s.c19 {
+		if !s.liveBad {
+			s.r.Probe("c19:live-ledger-failed-a-C07-oracle(run)")
+			if len(s.c07class) == 0 {
+				// would be a violation of C07 that no recorded finding explains (reported by `check C07`, not here)
+				s.r.Probe("c19:live-ledger-failed-a-C07-oracle-outside-the-recorded-C07-history-classes(run)")
+			}
+		}
+		s.liveBad = true
+		s.r.Probe("c19:C07-oracle-failed(not claimed here):" + oracle)
+		return
+	}
+	s.r.Fail(oracle, sigDetail, format, args...)
+}
+
+// oracleEval counts evaluations of the oracles of the property under check only.
+func (s *dvSim) oracleEval() {
+	if !s.c19 {
+		s.r.OracleEval()
+	}
+}
+
+// tag marks a history class of a finding recorded for C07. Under C19 it is not a signature tag: the classes in which
+// the live ledger is known to be wrong only switch the live comparison off (counted).
+func (s *dvSim) tag(name string) {
+	if s.c19 {
+		if !s.c07class[name] {
+			s.c07class[name] = true
+			s.r.Probe("c19:C07-history-class:" + name)
+		}
+		return
+	}
+	s.r.Tag(name)
 }
 
 func dvConv(a apiext.DeviceAllocations) dvAlloc {
@@ -1142,6 +1200,10 @@ func (dvEngine) Execute(r *sim.Run) {
 		nominator: frameworkext.NewFakeReservationNominator()}
 	s.pl = &Plugin{handle: s.h, nodeDeviceCache: newNodeDeviceCache(), gpuSharedResourceTemplatesCache: newGPUSharedResourceTemplatesCache(),
 		scorer: dvNewScorer(s.cfg.Scorer)}
+	if r.Prop == "C19" {
+		s.c19 = true
+		s.c07class = map[string]bool{}
+	}
 	r.Sample("cfg %+v faults=%v rate=%v", s.cfg, r.Plan.Faults, r.Plan.FaultRate)
 
 	const (
@@ -1201,6 +1263,10 @@ func (dvEngine) Execute(r *sim.Run) {
 		}
 		s.check()
 	}
+	if s.c19 {
+		// one more crash point: the end of the history (every event delivered, nothing in flight)
+		s.fork("end of history", true)
+	}
 	// everything released => ledgers must be empty again is implied by used = sum over live pods (checked above)
 }
 
@@ -1247,6 +1313,11 @@ func (s *dvSim) emit(evs []dvEvent) {
 // ---- device informer
 
 func (s *dvSim) setInventory(node string, d *schedulingv1alpha1.Device, healthy bool) {
+	s.inv[node] = dvInventoryOf(d, healthy)
+}
+
+// dvInventoryOf: what a Device object says the node has (unhealthy devices and, with healthy=false, all devices: nothing).
+func dvInventoryOf(d *schedulingv1alpha1.Device, healthy bool) dvAlloc {
 	inv := dvAlloc{}
 	for _, info := range d.Spec.Devices {
 		t := string(info.Type)
@@ -1263,7 +1334,7 @@ func (s *dvSim) setInventory(node string, d *schedulingv1alpha1.Device, healthy 
 		}
 		inv[t][int(*info.Minor)] = rs
 	}
-	s.inv[node] = inv
+	return inv
 }
 
 func (s *dvSim) deliverDevice() {
@@ -1312,6 +1383,9 @@ func dvTerminated(p *corev1.Pod) bool {
 func dvPodAlloc(r *sim.Run, p *corev1.Pod) dvAlloc {
 	a, err := apiext.GetDeviceAllocations(p.Annotations)
 	if err != nil {
+		if r.Prop == "C19" {
+			r.Fail("codec", "undecodable", "pod %s: the device-allocated annotation cannot be decoded: %v (%q)", p.Name, err, p.Annotations[apiext.AnnotationDeviceAllocated])
+		}
 		r.HarnessFail("harness wrote an undecodable annotation: %v", err)
 	}
 	return dvConv(a)
@@ -1389,7 +1463,7 @@ func (s *dvSim) modelPodUpsert(np *corev1.Pod) {
 		// history class of a recorded finding: the first event that shows the pod as assigned carries an allocation
 		// different from the one Reserve put into the ledger (relist merged the bind with a later rewrite, or the pod
 		// was scheduled a second time after a lost bind acknowledgement)
-		s.r.Tag("assigned-event-differs-from-reservation")
+		s.tag("assigned-event-differs-from-reservation")
 	}
 	s.bound[np.Name] = &dvHeld{node: np.Spec.NodeName, uid: string(np.UID), alloc: a}
 	s.markOver(np.Spec.NodeName, "allocation-made-elsewhere")
@@ -1408,7 +1482,7 @@ func (s *dvSim) modelPodGone(p *corev1.Pod) {
 	if h := s.expected(p.Name); h != nil && h.uid == string(p.UID) && !dvAllocEq(h.alloc, dvPodAlloc(s.r, p)) {
 		// history class of a recorded finding: the event that ends the pod (delete / terminated) carries a recorded
 		// allocation different from the one the ledger holds for it (relist merged a rewrite with the termination)
-		s.r.Tag("release-event-differs-from-ledger")
+		s.tag("release-event-differs-from-ledger")
 	}
 	delete(s.bound, p.Name)
 	if h := s.reserved[p.Name]; h != nil && h.uid == string(p.UID) {
@@ -1434,7 +1508,9 @@ func (s *dvSim) cycle(op *dvOp) {
 	ctx := context.TODO()
 	cs := framework.NewCycleState()
 	if _, st := s.pl.PreFilter(ctx, cs, pod, nil); !st.IsSuccess() {
-		r.Fail("prefilter", "rejects-valid-request", "PreFilter of %s (%+v) = %v", op.Pod, reqs, st.Message())
+		s.fail("prefilter", "rejects-valid-request", "PreFilter of %s (%+v) = %v", op.Pod, reqs, st.Message())
+		r.OpSkipped()
+		return
 	}
 	var feas []string
 	for _, n := range s.nodes {
@@ -1445,13 +1521,13 @@ func (s *dvSim) cycle(op *dvOp) {
 		}
 		want := s.feasible(n, reqs)
 		st := s.pl.Filter(ctx, cs, pod, s.h.snapshot.infos[n])
-		r.OracleEval()
+		s.oracleEval()
 		if st.IsSuccess() && !want {
-			r.Fail("filter", "accepts-infeasible", "Filter accepts %s on %s but no set of devices satisfies %+v: inventory %s used %s",
+			s.fail("filter", "accepts-infeasible", "Filter accepts %s on %s but no set of devices satisfies %+v: inventory %s used %s",
 				op.Pod, n, reqs, dvAllocStr(s.inv[n]), dvAllocStr(s.modelUsed(n)))
 		}
 		if !st.IsSuccess() && want {
-			r.Fail("filter", "rejects-feasible", "Filter rejects %s on %s (%s) although a feasible set exists for %+v: inventory %s used %s",
+			s.fail("filter", "rejects-feasible", "Filter rejects %s on %s (%s) although a feasible set exists for %+v: inventory %s used %s",
 				op.Pod, n, st.Message(), reqs, dvAllocStr(s.inv[n]), dvAllocStr(s.modelUsed(n)))
 		}
 		if want {
@@ -1484,10 +1560,10 @@ func (s *dvSim) reserve(o *dvOpen) {
 	want := s.feasible(node, reqs) // the ledger may have changed since Filter
 	usedBefore := s.modelUsed(node)
 	st := s.pl.Reserve(ctx, cs, pod, node)
-	r.OracleEval()
+	s.oracleEval()
 	if !st.IsSuccess() {
 		if want {
-			r.Fail("reserve", "fails-though-feasible", "Reserve of %s on %s failed (%s) although a feasible set exists for %+v: inventory %s used %s",
+			s.fail("reserve", "fails-though-feasible", "Reserve of %s on %s failed (%s) although a feasible set exists for %+v: inventory %s used %s",
 				name, node, st.Message(), reqs, dvAllocStr(s.inv[node]), dvAllocStr(usedBefore))
 		}
 		// the framework calls Unreserve of every reserve plugin when one Reserve fails
@@ -1497,7 +1573,7 @@ func (s *dvSim) reserve(o *dvOpen) {
 		return
 	}
 	if !want {
-		r.Fail("reserve", "accepts-infeasible", "Reserve of %s on %s succeeded but no set of devices satisfies %+v: inventory %s used %s",
+		s.fail("reserve", "accepts-infeasible", "Reserve of %s on %s succeeded but no set of devices satisfies %+v: inventory %s used %s",
 			name, node, reqs, dvAllocStr(s.inv[node]), dvAllocStr(usedBefore))
 	}
 	state, st := getPreFilterState(cs)
@@ -1505,6 +1581,9 @@ func (s *dvSim) reserve(o *dvOpen) {
 		r.HarnessFail("no prefilter state after Reserve")
 	}
 	alloc := dvConv(state.allocationResult)
+	if s.c19 {
+		s.codecRoundTrip(name, state.allocationResult)
+	}
 	s.checkAllocation(name, node, reqs, state.allocationResult, usedBefore)
 	s.reserved[name] = &dvHeld{node: node, uid: string(pod.UID), alloc: alloc}
 	s.inFlight[name] = true
@@ -1528,15 +1607,14 @@ func (s *dvSim) reserve(o *dvOpen) {
 // checkAllocation: a successful allocation gives the requested number of distinct devices, each a
 // permitted device with at least the requested amount free before the call.
 func (s *dvSim) checkAllocation(pod, node string, reqs []dvReq, res apiext.DeviceAllocations, usedBefore dvAlloc) {
-	r := s.r
-	r.OracleEval()
+	s.oracleEval()
 	want := map[string]*dvReq{}
 	for i := range reqs {
 		want[reqs[i].T] = &reqs[i]
 	}
 	for t := range res {
 		if want[string(t)] == nil {
-			r.Fail("allocation", "unrequested-type", "%s got devices of type %s it did not ask for", pod, t)
+			s.fail("allocation", "unrequested-type", "%s got devices of type %s it did not ask for", pod, t)
 		}
 	}
 	for _, t := range dvTypes {
@@ -1546,12 +1624,12 @@ func (s *dvSim) checkAllocation(pod, node string, reqs []dvReq, res apiext.Devic
 		}
 		list := res[schedulingv1alpha1.DeviceType(t)]
 		if len(list) != q.N {
-			r.Fail("allocation", "wrong-device-count", "%s asked for %d %s devices, got %d", pod, q.N, t, len(list))
+			s.fail("allocation", "wrong-device-count", "%s asked for %d %s devices, got %d", pod, q.N, t, len(list))
 		}
 		seen := map[int32]bool{}
 		for _, a := range list {
 			if seen[a.Minor] {
-				r.Fail("allocation", "minor-not-distinct", "%s got %s minor %d twice", pod, t, a.Minor)
+				s.fail("allocation", "minor-not-distinct", "%s got %s minor %d twice", pod, t, a.Minor)
 			}
 			seen[a.Minor] = true
 			tot, present := s.inv[node][t][int(a.Minor)]
@@ -1562,19 +1640,19 @@ func (s *dvSim) checkAllocation(pod, node string, reqs []dvReq, res apiext.Devic
 				}
 			}
 			if !present || !nonzero {
-				r.Fail("allocation", "device-not-permitted", "%s got %s minor %d on %s which is absent/unhealthy (inventory %s)", pod, t, a.Minor, node, dvAllocStr(s.inv[node]))
+				s.fail("allocation", "device-not-permitted", "%s got %s minor %d on %s which is absent/unhealthy (inventory %s)", pod, t, a.Minor, node, dvAllocStr(s.inv[node]))
 			}
 			for d, amount := range q.dims() {
 				got := a.Resources[corev1.ResourceName(d)]
 				if got.Value() != amount {
-					r.Fail("allocation", "amount-differs-from-request", "%s asked %s=%d per device, minor %d records %d", pod, d, amount, a.Minor, got.Value())
+					s.fail("allocation", "amount-differs-from-request", "%s asked %s=%d per device, minor %d records %d", pod, d, amount, a.Minor, got.Value())
 				}
 				free := tot[d] - usedBefore[t][int(a.Minor)][d]
 				if free < 0 {
 					free = 0
 				}
 				if amount > free {
-					r.Fail("allocation", "insufficient-free", "%s got %s minor %d on %s with %s free=%d < requested %d", pod, t, a.Minor, node, d, free, amount)
+					s.fail("allocation", "insufficient-free", "%s got %s minor %d on %s with %s free=%d < requested %d", pod, t, a.Minor, node, d, free, amount)
 				}
 			}
 		}
@@ -1603,7 +1681,7 @@ func (s *dvSim) tagSharedUndercountedCard(node string, alloc dvAlloc) {
 			}
 		}
 		if n >= 2 && under {
-			s.r.Tag("card-shared-with-truncated-byte-request")
+			s.tag("card-shared-with-truncated-byte-request")
 		}
 	}
 }
@@ -1621,7 +1699,7 @@ func (s *dvSim) stepTask(i int) {
 		if b := s.bound[t.name]; b != nil && b.uid == t.uid {
 			// history class of a recorded finding: the informer already confirmed the pod as bound (the bind
 			// was applied but its acknowledgement was lost) and the scheduler now rolls the reservation back
-			r.Tag("unreserve-after-bound-event")
+			s.tag("unreserve-after-bound-event")
 		}
 		s.pl.Unreserve(ctx, t.cs, t.pod, t.node)
 		if h := s.reserved[t.name]; h != nil && h.uid == t.uid {
@@ -1644,9 +1722,12 @@ func (s *dvSim) stepTask(i int) {
 		return
 	}
 	ann := podCopy.Annotations[apiext.AnnotationDeviceAllocated]
-	r.OracleEval()
+	if s.c19 {
+		s.checkPersisted(t, podCopy)
+	}
+	s.oracleEval()
 	if !dvAllocEq(dvPodAlloc(r, podCopy), t.alloc) {
-		r.Fail("prebind", "annotation-differs-from-reservation", "PreBind of %s records %s, Reserve committed %s", t.name, ann, dvAllocStr(t.alloc))
+		s.fail("prebind", "annotation-differs-from-reservation", "PreBind of %s records %s, Reserve committed %s", t.name, ann, dvAllocStr(t.alloc))
 	}
 	cur := s.st.pods[t.name]
 	if cur == nil || cur.UID != t.uid || cur.Node != "" {
@@ -1677,6 +1758,10 @@ func (s *dvSim) stepTask(i int) {
 	nb.RV = s.st.rv
 	s.st.pods[t.name] = &nb
 	s.emit([]dvEvent{{typ: "pod", kind: "update", name: t.name, old: np.obj(), new: nb.obj()}})
+	if s.c19 {
+		// crash point: the bind is in the API store; the scheduler dies here and a fresh one starts from the API objects
+		s.fork("bind of "+t.name, false)
+	}
 	if f == "bind-lost-ack" {
 		t.phase = 1
 		return
@@ -1709,13 +1794,13 @@ func (s *dvSim) check() {
 	for _, node := range s.nodes {
 		sum := all[node]
 		if (sum != nil) != s.known[node] {
-			r.OracleEval()
-			r.Fail("ledger", "node-presence", "node %s: ledger present=%v, model expects %v", node, sum != nil, s.known[node])
+			s.oracleEval()
+			s.fail("ledger", "node-presence", "node %s: ledger present=%v, model expects %v", node, sum != nil, s.known[node])
 		}
 		if sum == nil {
 			continue
 		}
-		r.OracleEval()
+		s.oracleEval()
 		used := s.modelUsed(node)
 		// union of (type, minor, resource) keys seen by either side
 		keys := map[dvKey]struct{}{}
@@ -1759,22 +1844,22 @@ func (s *dvSim) check() {
 			aggF[res] += F
 			aggU[res] += U
 			if mt := s.inv[node][t][m][res]; T != mt {
-				r.Fail("ledger", "total-differs-from-inventory/"+res, "node %s %s minor %d %s: total=%d, last delivered inventory says %d", node, t, m, res, T, mt)
+				s.fail("ledger", "total-differs-from-inventory/"+res, "node %s %s minor %d %s: total=%d, last delivered inventory says %d", node, t, m, res, T, mt)
 			}
 			if mu := used[t][m][res]; U != mu {
-				r.Fail("ledger", "used-ne-sum-of-live-allocations/"+res, "node %s %s minor %d %s: used=%d, live pods hold %d (pods: %s)", node, t, m, res, U, mu, s.heldStr(node))
+				s.fail("ledger", "used-ne-sum-of-live-allocations/"+res, "node %s %s minor %d %s: used=%d, live pods hold %d (pods: %s)", node, t, m, res, U, mu, s.heldStr(node))
 			}
 			wantF := T - U
 			if wantF < 0 {
 				wantF = 0
 			}
 			if F != wantF {
-				r.Fail("ledger", "free-ne-total-minus-used/"+res, "node %s %s minor %d %s: free=%d total=%d used=%d", node, t, m, res, F, T, U)
+				s.fail("ledger", "free-ne-total-minus-used/"+res, "node %s %s minor %d %s: free=%d total=%d used=%d", node, t, m, res, F, T, U)
 			}
 			ok := dvOverKey{node, k}
 			if U > T {
 				if !s.overOK[ok] {
-					r.Fail("ledger", "overcommit/"+res, "node %s %s minor %d %s: used=%d exceeds total=%d and no inventory shrink / foreign allocation explains it (pods: %s)", node, t, m, res, U, T, s.heldStr(node))
+					s.fail("ledger", "overcommit/"+res, "node %s %s minor %d %s: used=%d exceeds total=%d and no inventory shrink / foreign allocation explains it (pods: %s)", node, t, m, res, U, T, s.heldStr(node))
 				}
 			} else if s.overOK[ok] {
 				delete(s.overOK, ok)
@@ -1786,7 +1871,7 @@ func (s *dvSim) check() {
 		for name, pair := range map[string][2]map[string]int64{"total": {aggT, dvAgg(sum.DeviceTotal)}, "free": {aggF, dvAgg(sum.DeviceFree)}, "used": {aggU, dvAgg(sum.DeviceUsed)}} {
 			for res, v := range pair[0] {
 				if pair[1][res] != v {
-					r.Fail("ledger", "summary-aggregate", "node %s: aggregated %s of %s = %d, per-device sum = %d", node, name, res, pair[1][res], v)
+					s.fail("ledger", "summary-aggregate", "node %s: aggregated %s of %s = %d, per-device sum = %d", node, name, res, pair[1][res], v)
 				}
 			}
 		}
@@ -1835,7 +1920,7 @@ func (s *dvSim) check() {
 				} else if wantSet[k] == "" {
 					detail = "stale"
 				}
-				r.Fail("allocate-set", detail, "node %s allocate-set[%s] = %q, live pods' allocation = %q", node, k, gotSet[k], wantSet[k])
+				s.fail("allocate-set", detail, "node %s allocate-set[%s] = %q, live pods' allocation = %q", node, k, gotSet[k], wantSet[k])
 			}
 			digest = sim.Mix(sim.Mix(digest, sim.HashString(k)), sim.HashString(gotSet[k]))
 		}
@@ -1863,4 +1948,714 @@ func (s *dvSim) heldStr(node string) string {
 		}
 	}
 	return strings.Join(parts, ", ")
+}
+
+// ================================================================ C19: allocation state survives a restart
+//
+// Under property C19 the same histories run (the real Plugin.PreBind already persists the allocation), and after
+// EVERY bind that reaches the API store (acknowledged or not) and once more at the end of the history the run forks:
+// a fresh nodeDeviceCache is built and fed ONLY the objects that exist in the API store - Device objects and pods -
+// through the real event handlers, as the start-up delivery of a restarted scheduler: every object as an Add in a
+// seeded order, duplicate adds, Update(obj,obj) and an update carrying the same allocation. Oracles:
+//   (a) codec: Get(Set(x)) == x for every allocation the allocator produced; what PreBind stored reads back to the allocation;
+//   (b) the rebuilt node summaries (total / used / free per device and resource, allocate set) equal what the bound pods
+//       and Device objects of the store say (model), and the live summaries restricted to the bound pods;
+//   (c) rebuilt free == total - persisted use, and probe allocations for everything that is left (real PreFilter /
+//       Filter / Reserve on a plugin around the rebuilt cache) never overlap a persisted allocation.
+// Start-up order: deviceshare.New only registers the Device and the pod handlers (ForceSyncFromInformer does not
+// wait any more) and cmd/koord-scheduler/app/server.go starts the pod informer factory before the koordinator one,
+// asynchronously: both "Device before pods" and "pods before Device" are real; the class of every fork is part of the
+// violation signature. The node informer handlers of the plugin do nothing on add (not delivered).
+
+func dvAllocationsEqual(a, b apiext.DeviceAllocations) bool {
+	if len(a) != len(b) {
+		return false
+	}
+	for t, la := range a {
+		lb, ok := b[t]
+		if !ok || len(la) != len(lb) {
+			return false
+		}
+		for i := range la {
+			if (la[i] == nil) != (lb[i] == nil) {
+				return false
+			}
+			if la[i] != nil && !equality.Semantic.DeepEqual(*la[i], *lb[i]) {
+				return false
+			}
+		}
+	}
+	return true
+}
+
+// codecRoundTrip: Get(Set(x)) == x for an allocation the allocator produced, and for the same value padded with an
+// explicit zero amount.
+func (s *dvSim) codecRoundTrip(pod string, x apiext.DeviceAllocations) {
+	r := s.r
+	try := func(x apiext.DeviceAllocations, variant string) {
+		r.OracleEval()
+		holder := &corev1.Pod{}
+		if err := apiext.SetDeviceAllocations(holder, x); err != nil {
+			r.Fail("codec", "set-error/"+variant, "SetDeviceAllocations for %s: %v", pod, err)
+		}
+		back, err := apiext.GetDeviceAllocations(holder.Annotations)
+		if err != nil {
+			r.Fail("codec", "undecodable/"+variant, "GetDeviceAllocations(%q) for %s: %v", holder.Annotations[apiext.AnnotationDeviceAllocated], pod, err)
+		}
+		if !dvAllocationsEqual(x, back) {
+			r.Fail("codec", "round-trip/"+variant, "pod %s: wrote %s, read back %s (%q)", pod, dvAllocStr(dvConv(x)), dvAllocStr(dvConv(back)), holder.Annotations[apiext.AnnotationDeviceAllocated])
+		}
+	}
+	try(x, "as-allocated")
+	n := 0
+	for _, l := range x {
+		n += len(l)
+	}
+	if n > 1 {
+		r.Probe("c19:codec-multi-device")
+	}
+	if len(x) > 1 {
+		r.Probe("c19:codec-several-device-types")
+	}
+	try(dvZeroPadded(x), "zero-padded")
+}
+
+// dvZeroPadded returns a deep copy of the allocations in which every device carries one more resource with amount 0.
+func dvZeroPadded(x apiext.DeviceAllocations) apiext.DeviceAllocations {
+	out := apiext.DeviceAllocations{}
+	for t, l := range x {
+		for _, a := range l {
+			c := *a
+			c.Resources = a.Resources.DeepCopy()
+			if c.Resources == nil {
+				c.Resources = corev1.ResourceList{}
+			}
+			c.Resources["koordinator.sh/verif-zero"] = *resource.NewQuantity(0, resource.DecimalSI)
+			out[t] = append(out[t], &c)
+		}
+	}
+	return out
+}
+
+// checkPersisted: what PreBind wrote into the pod reads back to exactly the allocation Reserve committed.
+func (s *dvSim) checkPersisted(t *dvTask, podCopy *corev1.Pod) {
+	r := s.r
+	r.OracleEval()
+	state, st := getPreFilterState(t.cs)
+	if !st.IsSuccess() {
+		r.HarnessFail("no prefilter state at PreBind")
+	}
+	back, err := apiext.GetDeviceAllocations(podCopy.Annotations)
+	if err != nil {
+		r.Fail("persisted-vs-allocation", "undecodable", "pod %s: the annotation PreBind wrote cannot be decoded: %v (%q)", t.name, err, podCopy.Annotations[apiext.AnnotationDeviceAllocated])
+	}
+	if !dvAllocEq(dvConv(back), t.alloc) {
+		r.Fail("persisted-vs-allocation", "amounts", "pod %s on %s: Reserve committed %s, PreBind persisted %s", t.name, t.node, dvAllocStr(t.alloc), dvAllocStr(dvConv(back)))
+	}
+	if !dvAllocationsEqual(state.allocationResult, back) {
+		r.Fail("persisted-vs-allocation", "record", "pod %s on %s: the allocation result at the end of PreBind and the persisted annotation differ beyond amounts (ids / extensions): %q", t.name, t.node, podCopy.Annotations[apiext.AnnotationDeviceAllocated])
+	}
+	r.Probe("c19:prebind-persisted")
+}
+
+// ---- flattened views of a node summary, by value (an absent amount is a zero amount)
+
+func dvFlatSummary(sum *NodeDeviceSummary) map[string]int64 {
+	out := map[string]int64{}
+	if sum == nil {
+		return out
+	}
+	for name, detail := range map[string]map[schedulingv1alpha1.DeviceType]deviceResources{"total": sum.DeviceTotalDetail, "free": sum.DeviceFreeDetail, "used": sum.DeviceUsedDetail} {
+		for t, ms := range detail {
+			for m, rl := range ms {
+				for k, q := range rl {
+					if v := q.Value(); v != 0 {
+						out[fmt.Sprintf("%s %s/%d/%s", name, t, m, k)] = v
+					}
+				}
+			}
+		}
+	}
+	for name, agg := range map[string]map[corev1.ResourceName]*resource.Quantity{"total": sum.DeviceTotal, "free": sum.DeviceFree, "used": sum.DeviceUsed} {
+		for k, q := range agg {
+			if v := q.Value(); v != 0 {
+				out[fmt.Sprintf("%s-aggregate %s", name, k)] = v
+			}
+		}
+	}
+	return out
+}
+
+func dvFlatSet(sum *NodeDeviceSummary) map[string]string {
+	out := map[string]string{}
+	if sum == nil {
+		return out
+	}
+	for t, pods := range sum.AllocateSet {
+		for p, ms := range pods {
+			a := dvAlloc{string(t): map[int]map[string]int64{}}
+			for m, rl := range ms {
+				rs := map[string]int64{}
+				for k, q := range rl {
+					if v := q.Value(); v != 0 {
+						rs[string(k)] = v
+					}
+				}
+				a[string(t)][m] = rs
+			}
+			out[string(t)+"|"+p] = dvAllocStr(a)
+		}
+	}
+	return out
+}
+
+func dvSortedKeys[V any](ms ...map[string]V) []string {
+	seen := map[string]bool{}
+	var out []string
+	for _, m := range ms {
+		for k := range m {
+			if !seen[k] {
+				seen[k] = true
+				out = append(out, k)
+			}
+		}
+	}
+	sort.Strings(out)
+	return out
+}
+
+// dvExpected is what the API store says about one node: inventory of its Device object, the bound live pods with a
+// persisted allocation, and the ledger they imply (from the statement: used = sum, free = total - used, not below 0).
+type dvExpected struct {
+	flat map[string]int64
+	set  map[string]string
+	inv  dvAlloc
+	used dvAlloc
+	pods []*dvPod
+}
+
+func dvResOfKey(k string) string { return k[strings.LastIndex(k, "/")+1:] }
+
+func (s *dvSim) expectedOf(node string) *dvExpected {
+	e := &dvExpected{flat: map[string]int64{}, set: map[string]string{}, inv: dvAlloc{}, used: dvAlloc{}}
+	if o := s.st.devs[node]; o != nil {
+		e.inv = dvInventoryOf(s.st.devObj(node, o), true)
+	}
+	var names []string
+	for n := range s.st.pods {
+		names = append(names, n)
+	}
+	sort.Strings(names)
+	for _, n := range names {
+		p := s.st.pods[n]
+		if p.Node != node || p.Ann == "" || p.Phase == corev1.PodSucceeded || p.Phase == corev1.PodFailed {
+			continue
+		}
+		a := dvPodAlloc(s.r, p.obj())
+		if len(a) == 0 {
+			continue
+		}
+		e.pods = append(e.pods, p)
+		for t, ms := range a {
+			e.set[t+"|"+dvNS+"/"+p.Name] = dvAllocStr(dvAlloc{t: ms})
+			if e.used[t] == nil {
+				e.used[t] = map[int]map[string]int64{}
+			}
+			for m, rs := range ms {
+				if e.used[t][m] == nil {
+					e.used[t][m] = map[string]int64{}
+				}
+				for k, v := range rs {
+					e.used[t][m][k] += v
+				}
+			}
+		}
+	}
+	agg := func(name, k string, v int64) {
+		if v != 0 {
+			e.flat[name+"-aggregate "+k] += v
+		}
+	}
+	keys := map[dvKey]bool{}
+	for _, src := range []dvAlloc{e.inv, e.used} {
+		for t, ms := range src {
+			for m, rs := range ms {
+				for k := range rs {
+					keys[dvKey{t, m, k}] = true
+				}
+			}
+		}
+	}
+	for k := range keys {
+		T, U := e.inv[k.t][k.m][k.res], e.used[k.t][k.m][k.res]
+		F := T - U
+		if F < 0 {
+			F = 0
+		}
+		for name, v := range map[string]int64{"total": T, "used": U, "free": F} {
+			if v != 0 {
+				e.flat[fmt.Sprintf("%s %s/%d/%s", name, k.t, k.m, k.res)] = v
+			}
+			agg(name, k.res, v)
+		}
+	}
+	return e
+}
+
+// compareFlat reports the first difference between two flattened summaries.
+func (s *dvSim) compareFlat(oracle, class, what, node string, gotFlat, wantFlat map[string]int64, gotSet, wantSet map[string]string, gotName, wantName string) {
+	r := s.r
+	r.OracleEval()
+	for _, k := range dvSortedKeys(gotFlat, wantFlat) {
+		if gotFlat[k] != wantFlat[k] {
+			detail := strings.SplitN(k, " ", 2)[0] + "/" + dvResOfKey(k)
+			r.Fail(oracle, detail+"/"+class, "%s: node %s: %s: %s has %d, %s has %d", what, node, k, gotName, gotFlat[k], wantName, wantFlat[k])
+		}
+	}
+	for _, k := range dvSortedKeys(gotSet, wantSet) {
+		if gotSet[k] != wantSet[k] {
+			detail := "differs"
+			if gotSet[k] == "" {
+				detail = "missing"
+			} else if wantSet[k] == "" {
+				detail = "stale"
+			}
+			r.Fail(oracle, "allocate-set-"+detail+"/"+class, "%s: node %s: allocate-set[%s]: %s has %q, %s has %q", what, node, k, gotName, gotSet[k], wantName, wantSet[k])
+		}
+	}
+}
+
+type dvStartEv struct {
+	typ  string // device | pod
+	kind string // add | dup-add | resync | same-allocation-update | same-allocation-update-zero-padded
+	node string
+	pod  *dvPod
+}
+
+func dvShuffle[T any](r *sim.Run, xs []T) {
+	for i := 0; i+1 < len(xs); i++ {
+		j := i + r.Choose(len(xs)-i)
+		xs[i], xs[j] = xs[j], xs[i]
+	}
+}
+
+func dvInsertAfter(r *sim.Run, q []dvStartEv, after int, ev dvStartEv) ([]dvStartEv, int) {
+	pos := after + 1 + r.Choose(len(q)-after)
+	q = append(q, dvStartEv{})
+	copy(q[pos+1:], q[pos:])
+	q[pos] = ev
+	return q, pos
+}
+
+// dvTouched is a later version of the pod object that carries the same allocation (some unrelated field changed),
+// optionally with the allocation spelled with an explicit zero amount.
+func (s *dvSim) dvTouched(p *dvPod, zeroPad bool) *corev1.Pod {
+	o := p.obj()
+	o.ResourceVersion = o.ResourceVersion + "1"
+	o.Labels = map[string]string{"touched": "1"}
+	if zeroPad && p.Ann != "" {
+		a, err := apiext.GetDeviceAllocations(o.Annotations)
+		if err == nil && len(a) > 0 {
+			if err := apiext.SetDeviceAllocations(o, dvZeroPadded(a)); err != nil {
+				s.r.HarnessFail("SetDeviceAllocations: %v", err)
+			}
+		}
+	}
+	return o
+}
+
+// fork is one crash point.
+func (s *dvSim) fork(trigger string, final bool) {
+	r := s.r
+	s.forks++
+	r.Probe("c19:fork")
+	var podNames []string
+	for n := range s.st.pods {
+		podNames = append(podNames, n)
+	}
+	sort.Strings(podNames)
+	var devNodes []string
+	for n := range s.st.devs {
+		devNodes = append(devNodes, n)
+	}
+	sort.Strings(devNodes)
+	exp := map[string]*dvExpected{}
+	isExpected := map[string]bool{}
+	for _, n := range s.nodes {
+		exp[n] = s.expectedOf(n)
+		for _, p := range exp[n].pods {
+			isExpected[p.Name] = true
+		}
+	}
+	for _, pn := range podNames {
+		p := s.st.pods[pn]
+		switch {
+		case isExpected[pn]:
+		case p.Node == "" && p.Ann != "":
+			r.Probe("c19:store-has-unbound-pod-with-annotation")
+		case p.Node == "":
+			r.Probe("c19:store-has-unbound-pod")
+		case p.Phase == corev1.PodSucceeded || p.Phase == corev1.PodFailed:
+			r.Probe("c19:store-has-terminated-pod")
+		}
+	}
+
+	// ---- the live summaries at the crash point
+	live := s.pl.nodeDeviceCache.getAllNodeDeviceSummary()
+
+	// ---- a fresh cache, fed by the start-up delivery
+	cache2 := newNodeDeviceCache()
+	var devQ, podQ []dvStartEv
+	for _, n := range devNodes {
+		devQ = append(devQ, dvStartEv{typ: "device", kind: "add", node: n})
+	}
+	for _, pn := range podNames {
+		podQ = append(podQ, dvStartEv{typ: "pod", kind: "add", pod: s.st.pods[pn]})
+	}
+	dvShuffle(r, devQ)
+	dvShuffle(r, podQ)
+	for _, n := range devNodes {
+		at := -1
+		for i, ev := range devQ {
+			if ev.node == n && ev.kind == "add" {
+				at = i
+			}
+		}
+		if r.Flip(0.15) {
+			devQ, at = dvInsertAfter(r, devQ, at, dvStartEv{typ: "device", kind: "dup-add", node: n})
+		}
+		if r.Flip(0.15) {
+			devQ, _ = dvInsertAfter(r, devQ, at, dvStartEv{typ: "device", kind: "resync", node: n})
+		}
+	}
+	for _, pn := range podNames {
+		p := s.st.pods[pn]
+		at := -1
+		for i, ev := range podQ {
+			if ev.pod == p && ev.kind == "add" {
+				at = i
+			}
+		}
+		if r.Flip(0.2) {
+			podQ, at = dvInsertAfter(r, podQ, at, dvStartEv{typ: "pod", kind: "dup-add", pod: p})
+		}
+		if r.Flip(0.2) {
+			podQ, at = dvInsertAfter(r, podQ, at, dvStartEv{typ: "pod", kind: "resync", pod: p})
+		}
+		if r.Flip(0.2) {
+			kind := "same-allocation-update"
+			if r.Flip(0.4) {
+				kind = "same-allocation-update-zero-padded"
+			}
+			podQ, _ = dvInsertAfter(r, podQ, at, dvStartEv{typ: "pod", kind: kind, pod: p})
+		}
+	}
+	devSeen := map[string]bool{}
+	podBeforeDevice := false
+	deliver := func(ev dvStartEv) {
+		switch ev.typ {
+		case "device":
+			d := s.st.devObj(ev.node, s.st.devs[ev.node])
+			if ev.kind == "resync" {
+				cache2.onDeviceUpdate(d, d)
+			} else {
+				cache2.onDeviceAdd(d)
+			}
+			devSeen[ev.node] = true
+			r.Event("startup device %s %s", ev.kind, ev.node)
+		case "pod":
+			p := ev.pod
+			if isExpected[p.Name] && s.st.devs[p.Node] != nil && !devSeen[p.Node] {
+				if !podBeforeDevice {
+					r.Probe("c19:bound-pod-handled-before-its-device-object(fork)")
+				}
+				podBeforeDevice = true
+			}
+			switch ev.kind {
+			case "add", "dup-add":
+				cache2.onPodAdd(p.obj())
+			case "resync":
+				cache2.onPodUpdate(p.obj(), p.obj())
+			case "same-allocation-update":
+				cache2.onPodUpdate(p.obj(), s.dvTouched(p, false))
+			default:
+				cache2.onPodUpdate(p.obj(), s.dvTouched(p, true))
+			}
+			if ev.kind != "add" {
+				r.Probe("c19:startup-pod-" + ev.kind)
+			}
+			r.Event("startup pod %s %s node=%s phase=%s ann=%q", ev.kind, p.Name, p.Node, p.Phase, p.Ann)
+		}
+	}
+	if s.cfg.Order != "any" {
+		for _, ev := range devQ {
+			deliver(ev)
+		}
+		devQ = nil
+	}
+	for len(devQ)+len(podQ) > 0 {
+		var qs []*[]dvStartEv
+		for _, q := range []*[]dvStartEv{&devQ, &podQ} {
+			if len(*q) > 0 {
+				qs = append(qs, q)
+			}
+		}
+		q := qs[r.Choose(len(qs))]
+		ev := (*q)[0]
+		*q = (*q)[1:]
+		deliver(ev)
+	}
+	class := "devices-first"
+	if podBeforeDevice {
+		class = "pod-before-device"
+	}
+	r.Probe("c19:fork-order:" + class)
+
+	rebuilt := cache2.getAllNodeDeviceSummary()
+	var rnames []string
+	for n := range rebuilt {
+		rnames = append(rnames, n)
+	}
+	sort.Strings(rnames)
+	for _, n := range rnames {
+		known := false
+		for _, m := range s.nodes {
+			if m == n {
+				known = true
+			}
+		}
+		if !known {
+			r.Fail("rebuilt-vs-persisted", "unknown-node/"+class, "the rebuilt cache has a ledger for node %s which does not exist", n)
+		}
+	}
+
+	liveWrongByC07 := s.c07class["unreserve-after-bound-event"] || s.c07class["assigned-event-differs-from-reservation"] || s.c07class["release-event-differs-from-ledger"]
+	digest := uint64(1469598103934665603)
+	for _, n := range s.nodes {
+		e := exp[n]
+		what := fmt.Sprintf("fork %d after %s", s.forks, trigger)
+		gotFlat, gotSet := dvFlatSummary(rebuilt[n]), dvFlatSet(rebuilt[n])
+		for _, k := range dvSortedKeys(gotFlat) {
+			digest = sim.Mix(sim.Mix(digest, sim.HashString(n+k)), uint64(gotFlat[k]))
+		}
+		for _, k := range dvSortedKeys(gotSet) {
+			digest = sim.Mix(digest, sim.HashString(n+k+gotSet[k]))
+		}
+		// (b1) + (c, first half): rebuilt == what the API objects say; free == total - persisted use
+		present := s.st.devs[n] != nil || len(e.pods) > 0
+		if (rebuilt[n] != nil) != present {
+			r.OracleEval()
+			r.Fail("rebuilt-vs-persisted", "node-presence/"+class, "%s: node %s: rebuilt ledger present=%v, the store has Device object=%v and %d bound pods with an allocation", what, n, rebuilt[n] != nil, s.st.devs[n] != nil, len(e.pods))
+		}
+		s.compareFlat("rebuilt-vs-persisted", class, what+", rebuilt summary vs bound pods and Device object of the API store", n, gotFlat, e.flat, gotSet, e.set, "rebuilt", "store")
+
+		// (b2) rebuilt == live, restricted to the bound pods
+		switch {
+		case s.liveBad:
+			r.Probe("c19:live-comparison-skipped(live ledger failed a C07 oracle)")
+		case liveWrongByC07:
+			r.Probe("c19:live-comparison-skipped(history class of a recorded C07 finding)")
+		default:
+			liveSet := dvFlatSet(live[n])
+			for _, p := range e.pods {
+				// the live entry can be compared when no version of the pod that the live cache has seen or is about to see
+				// carries another allocation, and no other pod of that name is in flight
+				comparable := true
+				pending := false
+				check := func(o *corev1.Pod) {
+					if string(o.UID) != p.UID {
+						comparable = false
+						return
+					}
+					if o.Spec.NodeName != "" && o.Annotations[apiext.AnnotationDeviceAllocated] != "" && o.Annotations[apiext.AnnotationDeviceAllocated] != p.Ann {
+						comparable = false
+					}
+				}
+				if d := s.delivered[p.Name]; d != nil {
+					check(d)
+				}
+				for _, ev := range s.podQ {
+					if ev.name != p.Name {
+						continue
+					}
+					pending = true
+					if ev.kind == "delete" {
+						comparable = false
+					}
+					if o, ok := ev.new.(*corev1.Pod); ok && o != nil {
+						check(o)
+					}
+				}
+				if !comparable {
+					r.Probe("c19:live-entry-not-comparable(live cache lags the store)")
+					continue
+				}
+				r.OracleEval()
+				n1 := 0
+				for k, v := range e.set {
+					if !strings.HasSuffix(k, "|"+dvNS+"/"+p.Name) {
+						continue
+					}
+					n1++
+					lv, ok := liveSet[k]
+					if !ok {
+						if pending {
+							r.Probe("c19:live-entry-missing(event pending)")
+							continue
+						}
+						r.Fail("rebuilt-vs-live", "allocate-set-missing-in-live/"+class, "%s: node %s: bound pod %s holds %q but the live cache has no entry %s (nothing pending)", what, n, p.Name, v, k)
+					}
+					if lv != gotSet[k] {
+						r.Fail("rebuilt-vs-live", "allocate-set-entry/"+class, "%s: node %s: allocate-set[%s]: live %q, rebuilt %q", what, n, k, lv, gotSet[k])
+					}
+				}
+				r.Probe("c19:live-entry-compared")
+			}
+			quiet := len(s.podQ) == 0 && len(s.tasks) == 0 && s.open == nil
+			for _, ev := range s.devQ {
+				if ev.name == n {
+					quiet = false
+				}
+			}
+			if quiet {
+				// nothing in flight: the whole summaries must be equal by value
+				r.Probe("c19:whole-summary-compared")
+				s.compareFlat("rebuilt-vs-live", class, what+", rebuilt summary vs live summary (nothing in flight)", n, gotFlat, dvFlatSummary(live[n]), gotSet, liveSet, "rebuilt", "live")
+			} else if len(dvFlatSet(live[n])) > len(e.set) {
+				r.Probe("c19:live-holds-allocations-that-vanish-at-restart")
+			}
+		}
+	}
+	r.Event("fork %d (%s) order=%s rebuilt %x", s.forks, trigger, class, digest)
+
+	// (c) nothing taken before the restart is offered after it
+	s.probeAfterRestart(class, trigger, cache2, exp)
+	r.Sample("fork %d after %s: %d pods in the store, %d Device objects, order %s", s.forks, trigger, len(podNames), len(devNodes), class)
+}
+
+// probeAfterRestart: on a plugin around the rebuilt cache, pods asking for what is left of every device (largest
+// first) go through the real PreFilter / Filter / Reserve; whatever they are given, persisted use + probe use never
+// exceeds a device's total in the dimensions the probe asked for.
+func (s *dvSim) probeAfterRestart(class, trigger string, cache2 *nodeDeviceCache, exp map[string]*dvExpected) {
+	r := s.r
+	ctx := context.TODO()
+	pl2 := &Plugin{handle: s.h, nodeDeviceCache: cache2, gpuSharedResourceTemplatesCache: newGPUSharedResourceTemplatesCache(), scorer: dvNewScorer(s.cfg.Scorer)}
+	for _, node := range s.nodes {
+		e := exp[node]
+		if cache2.getNodeDevice(node, false) == nil {
+			continue
+		}
+		taken := dvAlloc{}
+		for _, t := range dvTypes {
+			primary := map[string]string{dvGPU: dvRatio, dvRDMA: dvRdmaR, dvFPGA: dvFpgaR}[t]
+			left := func(m int, res string) int64 {
+				f := e.inv[t][m][res] - e.used[t][m][res]
+				if f < 0 {
+					f = 0
+				}
+				return f
+			}
+			var minors []int
+			for m := range e.inv[t] {
+				if left(m, primary) > 0 {
+					minors = append(minors, m)
+				}
+			}
+			sort.Slice(minors, func(i, j int) bool {
+				if a, b := left(minors[i], primary), left(minors[j], primary); a != b {
+					return a > b
+				}
+				return minors[i] < minors[j]
+			})
+			// one pod for all untouched whole devices, then one pod per partly used (or smaller) device, largest first
+			var reqs []dvReq
+			var whole, partial []int
+			for _, m := range minors {
+				full := left(m, primary) == 100 && e.inv[t][m][primary] == 100
+				if t == dvGPU && (left(m, dvCore) != 100 || e.inv[t][m][dvCore] != 100) {
+					full = false
+				}
+				if full {
+					whole = append(whole, m)
+				} else {
+					partial = append(partial, m)
+				}
+			}
+			if len(whole) > 0 {
+				q := dvReq{T: t, N: len(whole), Amt: 100}
+				if t == dvGPU {
+					q = dvReq{T: t, N: len(whole), Core: 100, Ratio: 100, Enc: "core-ratio"}
+				}
+				reqs = append(reqs, q)
+				if len(whole) > 1 {
+					r.Probe("c19:probe-asks-for-several-whole-devices")
+				}
+			}
+			for _, m := range partial {
+				q := dvReq{T: t, N: 1}
+				switch t {
+				case dvGPU:
+					q.Ratio, q.Core, q.Enc = left(m, dvRatio), left(m, dvCore), "core-ratio"
+					if q.Core == 0 {
+						q.Enc = "ratio-only"
+					}
+				default:
+					q.Amt = left(m, primary)
+				}
+				reqs = append(reqs, q)
+			}
+			for _, q := range reqs {
+				s.probeSeq++
+				rl := corev1.ResourceList{}
+				q.podResources(rl)
+				pod := &corev1.Pod{
+					ObjectMeta: metav1.ObjectMeta{Name: fmt.Sprintf("restart-probe-%d", s.probeSeq), Namespace: dvNS, UID: types.UID(fmt.Sprintf("restart-probe-uid-%d", s.probeSeq))},
+					Spec:       corev1.PodSpec{Containers: []corev1.Container{{Name: "c", Resources: corev1.ResourceRequirements{Requests: rl, Limits: rl.DeepCopy()}}}},
+					Status:     corev1.PodStatus{Phase: corev1.PodPending},
+				}
+				cs := framework.NewCycleState()
+				if _, st := pl2.PreFilter(ctx, cs, pod, nil); !st.IsSuccess() {
+					r.Probe("c19:probe-prefilter-rejected")
+					continue
+				}
+				// Reserve without its log line (logAllocationContext marshals the whole node summary three times):
+				// Plugin.allocate on the rebuilt ledger, then updateCacheUsed, exactly what Reserve does
+				if st := pl2.allocate(ctx, cs, pod, s.h.snapshot.infos[node].Node()); !st.IsSuccess() {
+					r.Probe("c19:probe-allocate-rejected")
+					continue
+				}
+				state, st := getPreFilterState(cs)
+				if !st.IsSuccess() || state.allocationResult == nil {
+					r.Probe("c19:probe-without-allocation")
+					continue
+				}
+				nd := cache2.getNodeDevice(node, false)
+				nd.lock.Lock()
+				nd.updateCacheUsed(state.allocationResult, pod, true)
+				nd.lock.Unlock()
+				r.OracleEval()
+				r.Probe("c19:probe-allocated")
+				got := dvConv(state.allocationResult)
+				for gt, ms := range got {
+					for gm, rs := range ms {
+						if taken[gt] == nil {
+							taken[gt] = map[int]map[string]int64{}
+						}
+						if taken[gt][gm] == nil {
+							taken[gt][gm] = map[string]int64{}
+						}
+						for res := range q.dims() {
+							v := rs[res]
+							taken[gt][gm][res] += v
+							if v > 0 && e.used[gt][gm][res]+taken[gt][gm][res] > e.inv[gt][gm][res] {
+								r.Fail("offered-after-restart", "probe-overlaps-persisted/"+res+"/"+class,
+									"fork %d after %s: node %s: probe pods were given %s minor %d %s=%d in total, bound pods hold %d of the device's %d (probe request %+v; persisted %s)",
+									s.forks, trigger, node, gt, gm, res, taken[gt][gm][res], e.used[gt][gm][res], e.inv[gt][gm][res], q, dvAllocStr(e.used))
+							}
+						}
+					}
+				}
+			}
+		}
+	}
 }
